@@ -288,12 +288,34 @@ FileIssues(opts) ==
      \cup (IF c.tmpl = "testify" /\ "mock" \in localnames THEN {"import-vs-local-decl"} ELSE {})
      \cup (IF Range(imp) \cap localnames # {} THEN {"import-vs-local-decl"} ELSE {})
 
+\* IMPL: template_generator.go explicitConstraintType + mock_matryer.templ ensure line -- the type ARGUMENT made up for a
+\* type parameter: the first basic element, else the first term of the first union, else int when the type set is
+\* comparable, else the constraint's own text; spelled with types.Type.String() (full import path).
+Elements(cn) == IF cn.k = "iface" THEN cn.es ELSE IF cn.k = "named" THEN NamedConstraint(cn.n).es ELSE <<cn>>
+SetComparable(cn) == LET es == Elements(cn) IN
+  \E i \in 1..Len(es) : (es[i].k = "basic" /\ es[i].n \notin {"any"}) \/ es[i].k = "named"
+                         \/ (es[i].k = "union" /\ \A x \in 1..Len(es[i].ts) : IsComparableType(IF es[i].ts[x].k = "plain" THEN es[i].ts[x].e ELSE es[i].ts[x]))
+EnsureArg(cn) ==
+  LET es == Elements(cn)
+      idx == {i \in 1..Len(es) : (es[i].k = "basic" /\ es[i].n \notin {"any", "comparable"}) \/ es[i].k = "union"}
+  IN IF cn.k = "basic" /\ cn.n = "any" THEN [k |-> "self"]
+     ELSE IF idx # {} THEN LET e == es[CHOOSE i \in idx : \A x \in idx : i <= x]
+                           IN IF e.k = "union" THEN (IF e.ts[1].k = "plain" THEN e.ts[1].e ELSE e.ts[1]) ELSE e
+     ELSE IF SetComparable(cn) THEN B("int") ELSE [k |-> "self"]
+MentionsTP(cn) == \E n \in BareIdents(cn, FALSE) : n \in {"T", "t", "K", "k", "V"}
+EnsureArgBad(cn) ==
+  LET a == EnsureArg(cn) IN
+  IF a.k = "self" THEN MentionsTP(cn)                                            \* the constraint's text as the argument
+  ELSE ~Sat(a, cn) \/ (RefPkgs(a) \ StdPkgs) # {}                               \* not in the type set / full-path spelling
+
 \* one interface of the file: o = [n, ms, scs, tps]
 IfaceIssues(o, opts) ==
   (IF \E i \in 1..Len(o.tps) : Exported(o.tps[i].name) # o.tps[i].orig THEN {"tparam-case"} ELSE {})
   \* methods of the generic mock declare the type parameters in their receiver: a parameter of that name redeclares it
   \cup (IF \E i \in 1..Len(o.scs) : \E k \in 1..Len(o.scs[i].vars) : o.scs[i].vars[k].name \in {Exported(o.tps[x].name) : x \in 1..Len(o.tps)}
         THEN {"param-vs-tparam"} ELSE {})
+  \cup (IF c.tmpl = "matryer" /\ ~opts.skipensure /\ \E i \in 1..Len(o.tps) : EnsureArgBad(o.tps[i].c)
+        THEN {"ensure-type-argument"} ELSE {})                                     \* N15
   \cup UNION {IF c.tmpl = "testify" THEN TestifyMethodIssues(o.ms[i], o.scs[i], opts.unroll)
               ELSE MatryerMethodIssues(o.ms[i], o.scs[i], opts.stub) : i \in 1..Len(o.scs)}
 
@@ -370,6 +392,7 @@ NamedDeviations == {"tpl-capture",             \* N2/N4: parameter (or the matry
                     "import-qual-clash",       \* N3: testify's hard-coded `mock` import
                     "import-vs-local-decl",    \* N9, testify half only: its `mock` import does not go through the registry
                     "tparam-case",             \* D13
+                    "ensure-type-argument",    \* N15: matryer ensure line, type argument made up from a multi-element constraint
                     "nested-type-ident"}       \* N2: only whole type strings are registered in the method scope
 DeviationsNamed == pc = "done" => (ModelIssues \cup UNION {Issues(o) : o \in OptSets}) \subseteq NamedDeviations
 
